@@ -73,6 +73,7 @@ def roundtrip(ctx, dn, directed, idkind, delim, enc, target, big=False):
         if delim is not None:
             kw["delimiter"] = delim
         stream = list(G.stream_interactions())
+        kw = iohelp.drop_defaults(ctx.rng, kw, iohelp.WRITE_DEFAULTS, ctx)
         try:
             # the target is passed positionally or by keyword (both are resolved by the same decorator)
             if ctx.rng.random() < 0.3:
@@ -102,6 +103,9 @@ def roundtrip(ctx, dn, directed, idkind, delim, enc, target, big=False):
         rk = dict(directed=directed, nodetype=conv, timestamptype=int, encoding=enc)
         if delim is not None:
             rk["delimiter"] = delim
+        if conv is str:
+            rk["nodetype"] = None if ctx.rng.random() < 0.5 else str      # the reader yields strings by itself
+        rk = iohelp.drop_defaults(ctx.rng, rk, iohelp.READ_DEFAULTS, ctx)
         arg = tgt.read_arg()
         try:
             H = dn.read_interactions(path=arg, **rk) if ctx.rng.random() < 0.3 else dn.read_interactions(arg, **rk)
@@ -195,6 +199,7 @@ def log_case(ctx, dn):
     kw = dict(directed=directed, nodetype=int, timestamptype=int)
     if delim is not None:
         kw["delimiter"] = delim
+    kw = iohelp.drop_defaults(rng, kw, iohelp.READ_DEFAULTS, ctx)
     try:
         if rng.random() < 0.5:
             H = dn.parse_interactions(lines, **kw)
